@@ -195,7 +195,7 @@ def shards(tier):
             else:
                 out.append({'kind': 'facet', 'i': i, 'fid': fid, 'pos': pos, 'tier': tier})
     for j, (fid, t, mn, mx) in enumerate(occurrence_types()):
-        for pos in ('seq-arg', 'seq', 'seq-inherited'):
+        for pos in ('seq-arg', 'seq', 'seq-inherited', 'arr-arg', 'arr', 'arr-inherited'):
             out.append({'kind': 'occ', 'j': j, 'fid': fid, 'pos': pos, 'tier': tier})
     return out
 
@@ -334,6 +334,19 @@ def run_shard(shard):
         top = 5 if mx == 'unbounded' else mx + 2
         cases = []
         single = [t[0], t[1], {k: v for k, v in t[2].items() if k != 'max_occurs'}]
+        if pos.startswith('arr'):
+            # the bounds sit on the element type of an Array: an array sent explicitly with n members (the empty
+            # one included), and no array at all (the array member itself is optional)
+            top = 5 if mx in ('unbounded', 1) else mx + 2
+            for n in range(0, top + 1):
+                vs = list(range(1, n + 1))
+                cases.append(('array-of:%d' % n, vs, vs, n >= mn and (mx in ('unbounded', 1) or n <= mx)))
+            # (with a lower bound on the members, whether NO array is "zero members" (the dict families, HttpRpc) or
+            # "nothing to count" (the XML families, the published schema) is not settled by the property: not compared)
+            if mn == 0:
+                cases.append(('array-absent', [], Absent, True))
+            t = ['a', t, {}]
+            top = -1
         for n in range(0, top + 1):
             vs = list(range(1, n + 1))
             if mx == 1:
@@ -343,7 +356,7 @@ def run_shard(shard):
             exp = n >= mn and (mx == 'unbounded' or n <= mx)
             cases.append(('count:%d' % n, vs, slot, exp))
     upos = {'array': 'array', 'arg': 'arg', 'field': 'field', 'xmlattr': 'xmlattr', 'seq': 'field', 'seq-arg': 'arg', 'inherited': 'inherited',
-            'seq-inherited': 'inherited'}[pos]
+            'seq-inherited': 'inherited', 'arr-arg': 'arg', 'arr': 'field', 'arr-inherited': 'inherited'}[pos]
     program = universe.program_for(t, upos)
     if program is None:
         return res
